@@ -128,6 +128,7 @@ def skeleton(repo):
             res["forever"] = True
             res["reader"] = _reader_ops(body[0].body)
             res["lines"]["reader"] = [s.lineno for s in body[0].body]
+            res["lines"]["dest_call"] = [s.body[0].lineno for s in body[0].body if isinstance(s, ast.Try) and s.body]
     call = fns.get("__call__")
     if call is not None:
         body = _strip_doc(call.body)
